@@ -1,12 +1,63 @@
 """C04 Invalid input raises LoadError and nothing else."""
-from vf.gen import Plan
+from vf.gen import Plan, Module, Ob
 from props.fam_model import MEMBERS, member_module, LOAD_PARAMS, LOAD_ARGS, load_slices
 from props.fam_l1 import l1_loader_module
 from props.fam_l2 import l2_module
 
+KEXC_SETUP = '''
+import adaptix._internal.morphing.concrete_provider as cp
+import adaptix.load_error as le
+from adaptix import Retort
+from decimal import Decimal
+from fractions import Fraction
+LE_NAMES = {n for n in dir(le) if isinstance(getattr(le, n), type) and issubclass(getattr(le, n), le.LoadError)}
+def target(name):
+    if name == "bytes": return Retort().get_loader(bytes)
+    if name == "timedelta":
+        from datetime import timedelta
+        return Retort().get_loader(timedelta)
+    return getattr(cp, name)
+def kexc(name):
+    from vf.smt import kexc as K
+    bad = K.selftest()
+    if bad:
+        return {"status": "UNKNOWN", "detail": "stub self-test failed: %r" % (bad[:3],)}
+    try:
+        r = K.check_loader(target(name), LE_NAMES)
+    except K.CannotEncode as e:
+        return {"status": "UNKNOWN", "detail": "cannot encode: %s" % (e,)}
+    rec = {"solver_queries": r["queries"], "solver_s": round(r["solver_s"], 3), "evaluations": r["edges"],
+           "functions_encoded": ["morphing/concrete_provider.py:" + name], "backend": "z3 (QF_FP / strings / LIA via python API)",
+           "note": "exception edges examined: %d; opaque tests treated as nondeterministic: %r" % (r["edges"], r["opaque_tests"])}
+    if r["witnesses"]:
+        rec.update(status="REFUTED", cexs=[{"datum": repr(w)} for w, e, l, s in r["witnesses"][:5]])
+    elif r["unknown"]:
+        rec.update(status="UNKNOWN", detail="solver unknown on %r" % (r["unknown"],))
+    else:
+        rec["status"] = "CONFIRMED"
+    return rec
+def kexc_replay(name, datum):
+    o = outcome(target(name), datum)
+    return o[0] != "other_exc"
+'''
+KEXC_TARGETS = ["int_strict_coercion_loader", "int_lax_coercion_loader", "float_strict_coercion_loader", "float_lax_coercion_loader",
+                "str_strict_coercion_loader", "bool_strict_coercion_loader", "decimal_strict_coercion_loader", "decimal_lax_coercion_loader",
+                "fraction_strict_coercion_loader", "fraction_lax_coercion_loader", "complex_strict_coercion_loader", "complex_lax_coercion_loader",
+                "none_loader", "bytes", "timedelta"]
+
+
+def kexc_module():
+    m = Module("c04_kexc").pre(KEXC_SETUP)
+    for t in KEXC_TARGETS:
+        m.fns.append(f"def smt_kexc_{t}():\n    return kexc({t!r})\n\ndef chk_kexc_{t}(datum):\n    return kexc_replay({t!r}, datum)\n")
+        m.obs.append(Ob(name=f"kexc_{t}", module=m.key, kind="smt", timeout=120, family="E2 K-exc: exception-edge reachability over the loader's AST (z3)",
+                        bounds="datum: int (unbounded) | bool | float64 (all bit patterns incl. nan/inf) | str len<=6 | None | Decimal finite/inf/nan/snan | Fraction | complex | bytes | list; "
+                               "builtins int/float/Decimal/Fraction/complex/str.encode as contract stubs with exception edges (self-tested)"))
+    return m
+
 
 def build(tier, seed):
-    mods = [l1_loader_module("C04", tier), l2_module("C04", tier)]
+    mods = [l1_loader_module("C04", tier), l2_module("C04", tier), kexc_module()]
 
     model_names = ['plain', 'rename', 'nested', 'nested2', 'forbid_nested', 'kwargs', 'rest_field_rename', 'saturator', 'as_list_forbid', 'list_gaps', 'list_in_dict', 'dict_in_list', 'pairs_map'] if tier == "quick" else list(MEMBERS)
     for name in model_names:
